@@ -47,11 +47,11 @@
 (*      lifetime has elapsed (deadlines are kept to whole seconds)"        *)
 (*                            ScanOk (c): a new trash file has deadline >=  *)
 (*                            (time of previous scan) + lifetime;           *)
-(*                            UntrashOk: untrash answers 2xx while a        *)
-(*                            trashed copy with deadline > now exists on a  *)
-(*                            writable volume, and (ScanOk, last clause)    *)
-(*                            the block is there afterwards unless an       *)
-(*                            entitled trash request ran as well.           *)
+(*                            after an untrash that ran alone while a       *)
+(*                            trashed copy with deadline > now existed on a *)
+(*                            writable volume the block is there (ScanOk,   *)
+(*                            last clause) unless an entitled trash request *)
+(*                            ran as well; its status is not constrained.   *)
 (*  (d) "emptying the trash deletes only trashed copies whose deadline has *)
 (*      passed"               ScanOk (d): a trash file disappears only if   *)
 (*                            an EmptyTrash ran at a time >= its deadline,  *)
@@ -158,11 +158,10 @@ Entitled(r) ==
 
 (* obligations on the reply *)
 RetOk(id, status) ==
-    LET p == pend[id] IN
-    /\ p.op # "none"
-    /\ (p.op = "untrash" /\ p.sole /\ LiveTrash) => status \in 200 .. 299                \* (c)
-    \* (that a GET inside the protected period succeeds is C01's obligation; checks/C04.py reports a
-    \*  failing GET as drift only)
+    \* no obligation on any status: that an untrash "can bring the block back" is judged by its effect
+    \* (ScanOk, last clause; the handler may answer 500 "untrashed on X; failed on Y" and still have done it);
+    \* that a GET inside the protected period succeeds is C01's obligation (drift in checks/C04.py)
+    pend[id].op # "none"
 
 RetEff(id, status) ==
     LET p == pend[id] IN
